@@ -47,6 +47,12 @@ ASSUMPTIONS = [
     "constructors called with a negative size (or new_block without ranges, or an unknown sortby) must raise "
     "ValueError and leave the variable count and the names as they were",
     "add_clause(check=False) is used only with literals inside the declared range",
+    "constraint builders (add_clauses_from, add_parity, add_linear, cardinality_*, add_*_majority / minority, OPB add_constraint(s_from)): "
+    "with check=True ('check that the literals are valid and update the variable count' in the docstrings) the variable count "
+    "becomes the largest variable mentioned, whatever the operator and also when the constant makes the constraint trivial or "
+    "unsatisfiable (no clause, or the empty clause, is stored); the variables below it that nobody mentioned exist as well and are "
+    "anonymous; with check=False the builders are used only with literals inside the count; the literals of one call are on "
+    "pairwise distinct variables; which clauses / constraints are stored is not this property's subject",
     "the renderings are read with the independent readers: 'c varname <id> <name>' / '* varname x<id> <name>' lines, "
     "and the literal table of the LaTeX output through unit clauses (names compared after removing braces and blanks)",
     "scale: groups with more than 10^4 variables are questioned on sampled indices only (positions from "
@@ -243,12 +249,90 @@ def run_group(case):
 # ---------------------------------------------------------------------------
 # histories
 
+# ['insert', method, payload, extra, check, container]: the constraint builders, which may mention variables that no
+# group and no update_variable_number has introduced.  payload: literals (most methods), list of clauses
+# (add_clauses_from), [[coefficient, literal], ...] (add_constraint) or a list of [terms, relation, constant]
+# (add_constraints_from); extra: the constant of add_parity, [operator, constant] of add_linear, the value of
+# cardinality_*, [relation, constant] of add_constraint, None otherwise; container: how the literals are handed over.
+LINEAR_OPERATORS = ['>=', '<=', '==', '!=', '<', '>']
+_LITERAL_BUILDERS = ['add_parity', 'cardinality_eq', 'cardinality_neq', 'cardinality_leq', 'cardinality_geq',
+                     'add_loose_majority', 'add_strict_majority', 'add_loose_minority', 'add_strict_minority']
+INSERT_METHODS = {
+    'CNF': ['add_clauses_from', 'add_linear'] + _LITERAL_BUILDERS,
+    'OPB': ['add_clauses_from', 'add_constraint', 'add_constraints_from'] + _LITERAL_BUILDERS,
+}
+INSERT_TAGS = {
+    'CNF': ['add_clauses_from'] + ['add_linear' + o for o in LINEAR_OPERATORS] + _LITERAL_BUILDERS,
+    'OPB': ['add_clauses_from', 'add_constraints_from'] + ['add_constraint' + o for o in ['>=', '<=', '==', '<', '>']] + _LITERAL_BUILDERS,
+}
+CONTAINERS = ['list', 'tuple', 'generator']
+
+
+def insert_tag(method, extra):
+    return method + extra[0] if method in ('add_linear', 'add_constraint') else method
+
+
+def insert_literals(method, payload):
+    if method == 'add_clauses_from':
+        return [l for c in payload for l in c]
+    if method == 'add_constraint':
+        return [l for _c, l in payload]
+    if method == 'add_constraints_from':
+        return [l for terms, _r, _d in payload for _c, l in terms]
+    return list(payload)
+
+
+def _handed(seq, cont):
+    if cont == 'tuple':
+        return tuple(seq)
+    if cont == 'generator':
+        return (x for x in list(seq))
+    return list(seq)
+
+
+def insert_arguments(method, payload, extra, cont):
+    if method == 'add_clauses_from':
+        return [_handed([list(c) for c in payload], cont)]
+    if method == 'add_constraint':
+        return [[(c, l) for c, l in payload] + [extra[0], extra[1]]]
+    if method == 'add_constraints_from':
+        return [_handed([[(c, l) for c, l in terms] + [rel, d] for terms, rel, d in payload], cont)]
+    lits = _handed(payload, cont)
+    if method == 'add_linear':
+        return [lits, extra[0], extra[1]]
+    if method in ('add_parity', 'cardinality_eq', 'cardinality_neq', 'cardinality_leq', 'cardinality_geq'):
+        return [lits, extra]
+    return [lits]
+
+
+def make_insert(tag, lits, value, chk, cont):
+    """the operation for one of INSERT_TAGS on the literals `lits` (constant / value `value` where there is one)"""
+    for method in ('add_linear', 'add_constraint'):
+        if tag.startswith(method) and tag != 'add_constraints_from':
+            rel = tag[len(method):]
+            if method == 'add_linear':
+                return ['insert', method, list(lits), [rel, value], chk, cont]
+            return ['insert', method, [[1 + j % 3, l] for j, l in enumerate(lits)], [rel, value], chk, 'list']
+    if tag == 'add_clauses_from':
+        lits = list(lits)
+        return ['insert', tag, [lits[:1], lits[1:], lits], None, chk, cont]
+    if tag == 'add_constraints_from':
+        lits = list(lits)
+        return ['insert', tag, [[[[1, l] for l in lits[:2]], '>=', 1], [[[2, l] for l in lits[1:]], '==', value]], None, chk, cont]
+    if tag == 'add_parity':
+        return ['insert', tag, list(lits), value % 2, chk, cont]
+    if tag.startswith('cardinality_'):
+        return ['insert', tag, list(lits), value, chk, cont]
+    return ['insert', tag, list(lits), None, chk, cont]
+
+
 def run_history(case):
     clsname = case['cls']
     F = _mk(clsname)
     model = gr.Model()
     labels = set([clsname])
     nonempty_groups = 0
+    pending_tags = set()        # builders that brought new variables into existence since the last non-empty group
     for step, op in enumerate(case['ops']):
         name = op[0]
         where = "{} history, step {}".format(clsname, step)
@@ -277,6 +361,10 @@ def run_history(case):
                     labels.add('empty-group')
                 else:
                     nonempty_groups += 1
+                    for tag in pending_tags:
+                        labels.add('group-after-builder-variables')
+                        labels.add('group-after:' + tag)
+                    pending_tags.clear()
                     if had_anonymous:
                         labels.add('named-after-anonymous')
                         if ref.kind == 'variable':
@@ -305,6 +393,27 @@ def run_history(case):
                 model.nv = top
                 labels.add('constraint-raises-count')
             where += " add_constraint({} {} {})".format(terms, rel, d)
+        elif name == 'insert':
+            method, payload, extra, chk, cont = op[1], op[2], op[3], bool(op[4]), op[5]
+            tag = insert_tag(method, extra)
+            if method not in INSERT_METHODS[clsname]:
+                labels.add('operation-not-offered')
+                continue
+            top = max([abs(l) for l in insert_literals(method, payload)] + [0])
+            if not chk and top > model.nv:
+                labels.add('precondition-skip')
+                continue
+            args = insert_arguments(method, payload, extra, cont)
+            where += " {}({}, check={}) [literals given as {}]".format(
+                method, ', '.join(repr(a) for a in insert_arguments(method, payload, extra, 'list')), chk, cont)
+            getattr(F, method)(*args, check=chk)
+            labels.add('insert:' + tag)
+            labels.add('literals-as-' + cont)
+            if chk and top > model.nv:
+                labels.add('insert-raises-count')
+                labels.add('raises-count:' + tag)
+                pending_tags.add(tag)
+                model.nv = top
         elif name == 'update_variable_number':
             k = op[1]
             where += " update_variable_number({})".format(k)
@@ -587,7 +696,7 @@ def enum_mappings(tier):
 
 # histories ------------------------------------------------------------------
 
-_H_WEIGHTS = (['group'] * 9 + ['variable'] * 4 + ['clause'] * 4 + ['update'] * 3 + ['constraint'])
+_H_WEIGHTS = (['group'] * 9 + ['variable'] * 4 + ['clause'] * 4 + ['update'] * 3 + ['constraint'] + ['insert'] * 6)
 _H_KINDS = ['block', 'block'] + list(gr.WORD_KINDS) + list(gr.EDGE_KINDS) + list(gr.MAP_KINDS)
 
 
@@ -618,6 +727,26 @@ def _history(draw, clsname, max_steps):
                     v = 1 + a % top
                     lits.append(-v if s else v)
             ops.append(['add_clause', lits, chk])
+            if chk and lits:
+                nv = max(nv, max(abs(l) for l in lits))
+        elif what == 'insert':
+            # a constraint builder on 0..5 literals, mostly reaching beyond the current count
+            tag = _pick(draw, INSERT_TAGS[clsname])
+            chk = draw(_INT) % 5 != 0
+            top = nv + 3 if chk else nv
+            lits = []
+            if top >= 1:
+                seen_vars = set()
+                for a, s in draw(_LITS) + draw(_LITS)[:1]:
+                    v = 1 + a % top
+                    if chk and a % 3 == 0:
+                        v = nv + 1 + a % 3          # one of the never-seen variables
+                    if v in seen_vars:
+                        continue
+                    seen_vars.add(v)
+                    lits.append(-v if s else v)
+            value = draw(_INT) % (len(lits) + 3) - 1
+            ops.append(make_insert(tag, lits, value, chk, _pick(draw, CONTAINERS)))
             if chk and lits:
                 nv = max(nv, max(abs(l) for l in lits))
         elif what == 'constraint':
@@ -690,6 +819,34 @@ def enum_history(clsname):
                         nv += gr.Ref(op[1]).N
                     ops.append(op)
                 yield {'cls': clsname, 'ops': ops, 'fmt': DEFAULT_FORMATS[k % len(DEFAULT_FORMATS)]}
+        # every builder that may mention never-seen variables, followed by the creation of every group of the
+        # alphabet: on a fresh formula, after a group, after a group and an anonymous variable
+        groups = [op for op in alphabet if op[0] == 'group']
+        tags = INSERT_TAGS[clsname]
+        for t, tag in enumerate(tags):
+            for gi, gop in enumerate(groups):
+                for shape in ([(t + gi + j) % 6 for j in (0, 2, 4)] if tier == 'quick' else range(6)):
+                    k += 1
+                    first = groups[(gi + t + 1 + shape) % len(groups)]
+                    prefix = [[], [first], [first, ['update_variable_number', gr.Ref(first[1]).N + 2]],
+                              [['update_variable_number', 4]], [first, groups[(gi + 2 * t) % len(groups)]],
+                              [['add_clause', [-3], True], first]][shape]
+                    nv = 0
+                    for op in prefix:
+                        nv = nv + gr.Ref(op[1]).N if op[0] == 'group' else max(nv, max(abs(x) for x in (op[1] if op[0] == 'add_clause' else [op[1]])))
+                    # literals: variables nv+1 and nv+3 are new (nv+2 is never mentioned but must exist afterwards)
+                    lits = ([-1] if nv and k % 2 else []) + [nv + 3, -(nv + 1)] + ([nv] if nv > 1 and k % 3 == 0 else [])
+                    if k % 5 == 0:
+                        lits.reverse()
+                    value = [1, 1, 0, 2, len(lits)][k % 5]
+                    ops = list(prefix) + [make_insert(tag, lits, value, True, CONTAINERS[k % 3])]
+                    if shape >= 3 and k % 2:
+                        # the same builder once more, check=False on the variables that exist by now
+                        ops.append(make_insert(tag, [nv + 2, -(nv + 3)], 1, False, CONTAINERS[(k + 1) % 3]))
+                    ops.append(gop)
+                    if k % 4 == 0:
+                        ops.append(groups[(gi + 5) % len(groups)])
+                    yield {'cls': clsname, 'ops': ops, 'fmt': DEFAULT_FORMATS[k % len(DEFAULT_FORMATS)]}
     return gen
 
 
@@ -1824,6 +1981,12 @@ _HUGE_LABELS = ['huge', 'huge-block', 'huge-mapping', 'huge-binary_mapping', 'hu
                 'group-larger-than-2^32', 'identifiers-above-2^53', 'identifiers-above-2^63', 'identifiers-above-2^64',
                 'group-across-2^53', 'group-across-2^64']
 
+_BUILDERS_CNF = ("add_clauses_from, add_parity, add_linear with each of '>=', '<=', '==', '!=', '<', '>', cardinality_eq / neq / "
+                 "leq / geq, add_loose / strict_majority / minority, the literals handed over as list, tuple or generator, "
+                 "constants from -1 to len+1")
+_BUILDERS_OPB = ("add_clauses_from, add_constraint with each of '>=', '<=', '==', '<', '>' and coefficients 1..3, "
+                 "add_constraints_from, add_parity, cardinality_eq / neq / leq / geq, add_loose / strict_majority / minority")
+
 SUBCHECKS = [
     SubCheck('variable', run_group, strategy=_direct_strategy(['variable']), enumerate_cases=enum_variable(True),
              quick=300, thorough=3000, max_shards=2,
@@ -1914,26 +2077,38 @@ SUBCHECKS = [
              quick=1500, thorough=20000,
              rule="CNF: operation logs of 0..14 (thorough 0..30) steps interleaving creation of groups of every kind "
                   "(small shapes, some refused), labelled and unlabelled new_variable, add_clause(check=True) that may "
-                  "raise the count, add_clause(check=False), update_variable_number (raising, without effect, negative); "
-                  "plus every log of length <=2 (thorough <=3) over a 19-operation alphabet. After every step the names "
-                  "are compared with the model; at the end every group is checked again completely and against the "
-                  "identifiers of the other groups. " + _COMMON +
+                  "raise the count, add_clause(check=False), update_variable_number (raising, without effect, negative), "
+                  "and (one step in five) a CONSTRAINT BUILDER on 0..5 literals that may mention never-seen variables "
+                  "(up to 3 above the current count; check=False only inside the count): " + _BUILDERS_CNF +
+                  "; plus every log of length <=2 (thorough <=3) over a 19-operation alphabet; plus, for each of the 16 "
+                  "builders x each of the 15 group creations of the alphabet x 3 (thorough 6) prefixes {fresh formula; a "
+                  "group; a group and two anonymous variables; update_variable_number(4); two groups; a clause and a "
+                  "group}: the builder on the literals [count+3, -(count+1)] (+ an old variable), then the group "
+                  "(sometimes the builder again with check=False, sometimes a second group). After every step the names "
+                  "are compared with the model (a builder with check=True raises the count to the largest variable it "
+                  "mentions, the variables in between exist and are anonymous); at the end every group is checked again "
+                  "completely and against the identifiers of the other groups. " + _COMMON +
                   "Non-trivial: >=1 anonymous variable and >=2 non-empty groups.",
              required_labels=['variable'] + ['block'] + list(gr.WORD_KINDS) + list(gr.EDGE_KINDS) + list(gr.MAP_KINDS) +
                              ['sortby-pred', 'sortby-succ', 'empty-group', 'named-after-anonymous',
                               'variable-after-anonymous', 'gap-between-groups', 'wildcard', 'clause-raises-count',
                               'update-raises-count', 'update-without-effect', 'rejected-update', 'rejected-creation',
                               'foreign-identifier-refused', 'anonymous-tail', 'anonymous-head', 'rendered',
-                              'custom-default-format', 'default-label']),
+                              'custom-default-format', 'default-label', 'insert-raises-count', 'group-after-builder-variables',
+                              'literals-as-list', 'literals-as-tuple', 'literals-as-generator'] +
+                             [p + t for t in INSERT_TAGS['CNF'] for p in ('insert:', 'raises-count:', 'group-after:')]),
     SubCheck('history_opb', run_history, strategy=_history_strategy('OPB'), enumerate_cases=enum_history('OPB'),
              quick=1500, thorough=20000,
-             rule="OPB: the same operation logs, plus add_constraint that may raise the count. " + _COMMON +
+             rule="OPB: the same operation logs, plus add_constraint that may raise the count; the constraint builders are " +
+                  _BUILDERS_OPB + ", in the random logs and in the enumerated builder x group x prefix logs of history_cnf. " + _COMMON +
                   "Non-trivial: >=1 anonymous variable and >=2 non-empty groups.",
              required_labels=['variable'] + ['block'] + list(gr.WORD_KINDS) + list(gr.EDGE_KINDS) + list(gr.MAP_KINDS) +
                              ['sortby-pred', 'sortby-succ', 'empty-group', 'named-after-anonymous',
                               'variable-after-anonymous', 'gap-between-groups', 'wildcard', 'clause-raises-count',
                               'constraint-raises-count', 'update-raises-count', 'rejected-update',
-                              'foreign-identifier-refused', 'rendered', 'custom-default-format']),
+                              'foreign-identifier-refused', 'rendered', 'custom-default-format', 'insert-raises-count',
+                              'group-after-builder-variables', 'literals-as-list', 'literals-as-tuple', 'literals-as-generator'] +
+                             [p + t for t in INSERT_TAGS['OPB'] for p in ('insert:', 'raises-count:', 'group-after:')]),
     SubCheck('varnames_cli', run_cli, strategy=lambda: _cli_strategy(), enumerate_cases=enum_cli,
              quick=120, thorough=2500,
              rule="cnfgen / pbgen --varnames (in-process main()) for php, op, ram, cliquecoloring, vdw (2 and 3 colours), "
